@@ -42,10 +42,11 @@ fn shape_class(printed: &str) -> String {
 }
 
 /// round trip on a text that anthem accepts as `T`; returns (states, violation)
-fn round_trip<T>(run: &Run, what: &str, text: &str) -> bool
+fn round_trip<T>(run: &Run, what: &'static str, text: &str) -> bool
 where
     T: FromStr + Display + PartialEq + Debug,
 {
+    let _w = run.watch_with("round_trip", "input", text, "node", what);
     let Ok(t0) = text.parse::<T>() else { return false };
     run.state();
     run.trans(2);
@@ -266,6 +267,7 @@ pub fn run(mode: Mode, run: &Run) {
         if quick && i % 3 != 0 {
             return;
         }
+        let _w = run.watch("translate_then_print", "program", t);
         let Ok(p) = t.parse::<asp::Program>() else { return };
         let mut outs: Vec<(&str, fol::Theory)> = vec![("tau-star", p.clone().tau_star()), ("mu", p.clone().mu())];
         if let Some(n) = p.clone().natural() {
@@ -291,6 +293,7 @@ pub fn run(mode: Mode, run: &Run) {
         if quick && i % 4 != 0 {
             return;
         }
+        let _w = run.watch("simplify_then_print", "formula", t);
         let Ok(f) = t.parse::<fol::Formula>() else { return };
         for pname in crate::c07::PORTFOLIOS {
             let fns = crate::c07::portfolio(pname);
@@ -321,17 +324,17 @@ pub fn replay(mode: Mode, v: &serde_json::Value) -> i32 {
     let text = r["input"].as_str().or_else(|| r["formula"].as_str()).or_else(|| r["program"].as_str()).unwrap_or("");
     let node = r["node"].as_str().unwrap_or(if mode == Mode::C14 { "program" } else { "theory" });
     let parsed = match node {
-        "term" => round_trip::<asp::Term>(&run, node, text),
-        "program" => round_trip::<asp::Program>(&run, node, text),
-        "formula" => round_trip::<fol::Formula>(&run, node, text),
-        "integer_term" => round_trip::<fol::IntegerTerm>(&run, node, text),
-        "general_term" => round_trip::<fol::GeneralTerm>(&run, node, text),
-        "symbolic_term" => round_trip::<fol::SymbolicTerm>(&run, node, text),
-        "annotated_formula" => round_trip::<fol::AnnotatedFormula>(&run, node, text),
-        "specification" => round_trip::<fol::Specification>(&run, node, text),
-        "user_guide_entry" => round_trip::<fol::UserGuideEntry>(&run, node, text),
-        "user_guide" => round_trip::<fol::UserGuide>(&run, node, text),
-        _ => round_trip::<fol::Theory>(&run, node, text),
+        "term" => round_trip::<asp::Term>(&run, "term", text),
+        "program" => round_trip::<asp::Program>(&run, "program", text),
+        "formula" => round_trip::<fol::Formula>(&run, "formula", text),
+        "integer_term" => round_trip::<fol::IntegerTerm>(&run, "integer_term", text),
+        "general_term" => round_trip::<fol::GeneralTerm>(&run, "general_term", text),
+        "symbolic_term" => round_trip::<fol::SymbolicTerm>(&run, "symbolic_term", text),
+        "annotated_formula" => round_trip::<fol::AnnotatedFormula>(&run, "annotated_formula", text),
+        "specification" => round_trip::<fol::Specification>(&run, "specification", text),
+        "user_guide_entry" => round_trip::<fol::UserGuideEntry>(&run, "user_guide_entry", text),
+        "user_guide" => round_trip::<fol::UserGuide>(&run, "user_guide", text),
+        _ => round_trip::<fol::Theory>(&run, "theory", text),
     };
     let vs = run.violations.lock().unwrap();
     println!("replay {node} `{text}`: accepted={parsed} violations={:?}", vs.iter().map(|x| x.key.clone()).collect::<Vec<_>>());
